@@ -12,6 +12,13 @@ claimed={
  'C08':("the state invariant Canonical is evaluated by TLC on every register named by every event of long recorded histories.","4 C08"),
  'C09':("precision/mode stickiness and operand immutability are evaluated by TLC on every event: receiver attributes against the documented value, operands against the model state, unnamed registers by digest.","4 C09"),
  'C10':("refinement of a buffer-free specification: every operation instance is executed under all aliasing partitions and receiver histories; all variants are validated against the specification, and variants of one instance are compared with each other by the trace specification.","4 C10"),
+ 'C11':("Text(-1)/MarshalText/JSON output is validated against the layout specification (all MinPrec digits, none invented) and the string is parsed back by the real code into a receiver of sufficient precision; TLC checks the re-read value and sign against x.","4 C11"),
+ 'C12':("the literal grammar is a TLA+ recogniser over characters; every Parse-family call on structured, mutated and random strings is validated against it (accept/reject, detected base, value: exact-then-rounded for decimal literals, exact-or-1ulp with a binary exponent), and math/big's Float.Parse is validated on the same strings as a second implementation of the same recogniser.","4 C12"),
+ 'C13':("Text/Append/Format output is compared by TLC with the specification's strconv/fmt layout applied to the correctly rounded digits (rounding position at/above the leading digit included); strconv.FormatFloat and fmt.Sprintf on the float64 of the same value are validated against the same specification as a second implementation.","4 C13"),
+ 'C14':("Int/Int64/Uint64/Rat/IsInt/MinPrec and SetInt/SetInt64/SetUint64/SetRat/NewDecimal of recorded executions are validated against exact truncation / saturation / single rounding in the specification.","4 C14"),
+ 'C15':("SetFloat64/SetFloat (exact when representable, else within 1 / 64 ulp) and Float64/Float32 (declarative nearest-even predicate NearestOK by cross-multiplication, accuracy = sign(returned - x)) validated on adversarial bit patterns, midpoints and double-rounding triggers constructed from the specification side.","4 C15"),
+ 'C17':("GobEncode is validated against the specification's decoder, GobDecode against WellFormedGob/DecodeGob on valid, corrupted, truncated and hand-made payloads; decoded receivers are used afterwards.","4 C17"),
+ 'C19':("the Context latch is a hidden variable of the trace specification inferred by TLC from recorded sessions; results are validated against apply-then-operate semantics with the context's precision and mode.","4 C19"),
  'C16':("Cmp/Sign/Signbit/IsZero/IsInf of recorded executions are compared by TLC with the sign of the exact difference computed by the specification, on adversarial pairs/triples in all ordered pairs.","4 C16"),
  'C20':("SetBitsExp/BitsExp/MantExp/SetMantExp validated against TLA+ operators with exact (BigInt) exponent arithmetic over all int64 exponents.","4 C20"),
 }
